@@ -32,6 +32,8 @@ def apply_step(w, program, st, **kw):
         w.ext_recreate(st[1])
     elif op == 'same_stamp_rewrite':
         w.ext_same_stamp_rewrite(st[1], st[2].encode('latin-1'))
+    elif op == 'rewrite':
+        w.ext_rewrite(st[1], st[2].encode('latin-1'), st[3])
     elif op == 'delcache':
         w.ext_delete_cache()
     else:
